@@ -242,6 +242,38 @@ fn grammar_sites(sorenson: bool) -> Vec<(String, Vec<u8>)> {
     v
 }
 
+/// Every single-bit corruption of a few valid base pictures (header, macroblock headers, vectors,
+/// coefficients, stuffing): whether a variant fails, and how deep, is left to the decoder - the
+/// property is conditional on Err. The names end in " to bit k" so that one signature covers a base.
+fn bitflip_sites(sorenson: bool, seed: u64) -> Vec<(String, Vec<u8>)> {
+    use super::inter::{fix_last_flags, mbs_for, Spec};
+    let mut bases: Vec<(&str, Vec<u8>)> = vec![];
+    let p_pic = |hdr: Hdr, specs: &[Spec]| -> Vec<u8> {
+        let v1 = hdr.v1();
+        let mut p = Pic { hdr, mbs: mbs_for(specs, 2, v1, true) };
+        fix_last_flags(&mut p);
+        encode_bytes(&p)
+    };
+    if sorenson {
+        bases.push(("a Sorenson v0 I picture 32x16", encode_bytes(&super::inter::noise_intra(Hdr::S(SHdr { version: 0, tr: 60, size: SSize::auto(32, 16), ptype: 0, deblock: false, q: 6, pei: vec![] }), seed ^ 0x51))));
+        bases.push(("a Sorenson v1 P picture 32x16 (one vector + four vectors with residual)", p_pic(Hdr::S(SHdr { version: 1, tr: 61, size: SSize::auto(32, 16), ptype: 1, deblock: true, q: 7, pei: vec![0x33] }), &[Spec::Inter((3, -2), true), Spec::Inter4V([(1, 1), (-2, 3), (4, -4), (0, 7)], true)])));
+        bases.push(("a Sorenson v0 disposable picture 32x16 (intra + not coded)", p_pic(Hdr::S(SHdr { version: 0, tr: 62, size: SSize::auto(32, 16), ptype: 2, deblock: false, q: 5, pei: vec![] }), &[Spec::Intra, Spec::NotCoded])));
+    } else {
+        bases.push(("a standard-mode I picture 32x16 (PLUSPTYPE)", encode_bytes(&super::inter::noise_intra(Hdr::Std(StdHdr::custom(32, 16, false, 60, 6)), seed ^ 0x52))));
+        bases.push(("a standard-mode P picture 32x16 (PLUSPTYPE, vector + intra)", p_pic(Hdr::Std(StdHdr::custom(32, 16, true, 61, 7)), &[Spec::Inter((-3, 2), true), Spec::Intra])));
+    }
+    let mut v = vec![];
+    for (name, b) in bases {
+        for k in 0..b.len() * 8 {
+            let mut c = b.clone();
+            c[k / 8] ^= 0x80 >> (k % 8);
+            c.extend_from_slice(&[0, 0]);
+            v.push((format!("single bit flipped in {name} to bit {k}"), c));
+        }
+    }
+    v
+}
+
 fn drain<R: Read>(rd: &mut H263Reader<R>) -> Vec<bool> {
     let mut out = vec![];
     while let Ok(b) = rd.read_bits::<u8>(1) {
@@ -322,7 +354,15 @@ fn fail_checks(rep: &Report, world: &World, nodes: &[Node], sites: &[(String, Ve
                     rep.violation(&panic_sig(&p), format!("state after {labels:?}, input '{name}' after {consume_bits} consumed bits: panic {p}"), replay_steps.clone());
                     return;
                 }
-                Outcome::Ok => continue,
+                Outcome::Ok => {
+                    // behind this prefix the input is acceptable (a start code forms across the
+                    // boundary): the state has changed legitimately; start again from the history
+                    r = match world.run(&node.hist, "C05") {
+                        Ok(x) => x,
+                        Err(_) => return,
+                    };
+                    continue;
+                }
                 Outcome::Err(_) => {}
             }
             let got = drain(&mut rd2);
@@ -679,6 +719,7 @@ pub fn run(tier: Tier) -> Report {
     let rep = Report::new("C05", "atomic", tier);
     let site_failed: Mutex<BTreeMap<String, u64>> = Mutex::new(BTreeMap::new());
     let mut graphs = vec![];
+    let mut flip_stats = vec![];
     for sorenson in [true, false] {
         let world = closed_world(sorenson, if tier.thorough() { &[0, 1, 2, 255] } else { &TRS }, 3);
         // states of the reachable graph (violations of C04 itself are reported by C04, not here)
@@ -690,6 +731,17 @@ pub fn run(tier: Tier) -> Report {
         }
         rep.add_states(ex.nodes.len() as u64);
         fail_checks(&rep, &world, &ex.nodes, &sites, &site_failed, true);
+        // every single-bit corruption of valid base pictures, in the shallow states (quick: initial
+        // state and one picture; thorough: up to two pictures, with continuations)
+        let flips = bitflip_sites(sorenson, crate::evidence::seed());
+        let depth = if tier.thorough() { 2 } else { 1 };
+        let shallow: Vec<Node> = ex.nodes.iter().filter(|n| n.hist.len() <= depth).map(|n| Node { hist: n.hist.clone(), last_ne_ref: n.last_ne_ref }).collect();
+        let flip_failed: Mutex<BTreeMap<String, u64>> = Mutex::new(BTreeMap::new());
+        fail_checks(&rep, &world, &shallow, &flips, &flip_failed, tier.thorough());
+        let ff = flip_failed.lock().unwrap();
+        flip_stats.push(json!({"mode": if sorenson { "sorenson" } else { "standard" }, "corrupted_inputs": flips.len(), "states": shallow.len(), "inputs_that_failed_in_some_state": ff.len(), "failing_calls": ff.values().sum::<u64>()}));
+        drop(ff);
+        rep.add_nontrivial(shallow.iter().filter(|n| !n.hist.is_empty()).count() as u64 * flips.len() as u64);
         graphs.push(json!({"mode": if sorenson { "sorenson" } else { "standard" }, "states": ex.nodes.len(), "failure_sites": sites.len(), "operations": world.ops.len(), "fixpoint": ex.fixpoint}));
         rep.add_nontrivial(ex.nodes.iter().filter(|n| !n.hist.is_empty()).count() as u64 * sites.len() as u64);
     }
@@ -703,12 +755,13 @@ pub fn run(tier: Tier) -> Report {
         graphs.push(json!({"mode": "sorenson-motion", "states": ex.nodes.len(), "failure_sites": sites.len(), "depth": 4}));
     }
     rep.extra("graphs", json!(graphs));
+    rep.extra("single_bit_corruptions", json!(flip_stats));
     let sf = site_failed.lock().unwrap().clone();
     rep.extra("failing_calls_per_site", json!(sf));
     split_delivery(&rep, tier);
     scale_delivery(&rep, tier);
     rep.set_rule(
-        "for every state of the reachable decoder graph (closed alphabets of C04, both modes) x every failure site (no start code, header cut at every byte, reserved size/format, unsupported types, invalid MCBPC/CBPY/MVD/INTRADC/TCOEF/escape after 0 or 1 good macroblocks in I and P pictures, prediction without or with a mismatching reference): if the call returns Err then the whole decoder state (hooked key incl. carried-over options), the most recent picture and the bits re-read from the same reader are unchanged, a second failure changes nothing, and every continuation equals a twin that never saw the input; every byte split of every base picture delivered in two parts to one reader, and with a transient WouldBlock from the source at every byte instead; pictures of 2^k bytes (k = 12..18, thorough ..21) cut or corrupted near the end, in the middle and at every power-of-two offset: state unchanged, the reader re-delivers every byte, the retry after the rest arrives equals the one-piece decode; non-trivial = (non-initial state, site) pairs",
+        "for every state of the reachable decoder graph (closed alphabets of C04, both modes) x every failure site (no start code, header cut at every byte, reserved size/format, unsupported types, invalid MCBPC/CBPY/MVD/INTRADC/TCOEF/escape after 0 or 1 good macroblocks in I and P pictures, prediction without or with a mismatching reference) and, in the states reached by at most one (thorough: two) pictures, x every single-bit corruption of five valid base pictures: if the call returns Err then the whole decoder state (hooked key incl. carried-over options), the most recent picture and the bits re-read from the same reader are unchanged, a second failure changes nothing, and every continuation equals a twin that never saw the input; every byte split of every base picture delivered in two parts to one reader, and with a transient WouldBlock from the source at every byte instead; pictures of 2^k bytes (k = 12..18, thorough ..21) cut or corrupted near the end, in the middle and at every power-of-two offset: state unchanged, the reader re-delivers every byte, the retry after the rest arrives equals the one-piece decode; non-trivial = (non-initial state, site) pairs",
     );
     rep.sample(json!({"state": ["I(tr=0,0)", "Da(tr=255,1)"], "failing_input": "INTRADC 0 in macroblock 1 of an I picture (deblocking flag set)", "continuation": "Pb(tr=0,1)"}));
     rep.sample(json!({"split": "32x16 P picture after [I, D], bytes 0..k delivered first for every k"}));
